@@ -179,6 +179,60 @@ pub fn run_c08(a: &Args) {
     println!("c08: {} runs", cases.len());
 }
 
+/// every run of consecutive client frames handed over in one write (the cipher switch falls inside a write), compared
+/// with the frame-by-frame run: used by C05 as well (one continuous cipher stream whatever the segmentation)
+pub fn coalesced_cases(rng: &mut Rng, n: usize) -> Vec<Case> {
+    let mut cases = vec![];
+    for bi in 0..n {
+        let (plan, secret) = full_plan(rng, bi % 3 == 0);
+        let v = routed_verdicts(rng, &plan, true);
+        let mut base = scenario(rng, &plan, secret.clone(), vec![], v);
+        base.steps = render(&plan, secret.is_some());
+        let c0 = canon(&exec(&base));
+        let mut sc = base.clone();
+        let mut steps: Vec<Step> = vec![];
+        let mut run: Vec<Step> = vec![];
+        for st in &base.steps {
+            if is_frame_step(st) && !matches!(st, Step::KeepAlive(_)) {
+                if matches!(st, Step::EncResp(_)) && !run.is_empty() { steps.push(Step::Batch(std::mem::take(&mut run))); }
+                run.push(st.clone());
+            } else { if !run.is_empty() { steps.push(Step::Batch(std::mem::take(&mut run))); } steps.push(st.clone()); }
+        }
+        if !run.is_empty() { steps.push(Step::Batch(run)); }
+        sc.steps = steps;
+        let o = exec(&sc);
+        let mut why = vec![];
+        if canon(&o) != c0 { why.push("the run with coalesced frames (Encryption Response and the first encrypted frames in one segment) differs from the frame-by-frame run".to_string()); }
+        if o.undecodable { why.push("server bytes after the cipher switch do not decrypt as one continuous stream".into()); }
+        cases.push(Case { request: o.request1.clone(), observed: o.observed.clone(), oracle: if why.is_empty() { None } else { Some(why.join("; ")) }, class: "connection:coalesced".into() });
+    }
+    cases
+}
+
+/// a Keep Alive whose write is cut short by the adapter completion that follows (back-pressure), never answered: the
+/// next tick must time the client out exactly as without back-pressure — used by C07 as well
+pub fn cancelled_keepalive_cases(rng: &mut Rng, n: usize) -> Vec<Case> {
+    let mut cases = vec![];
+    for bi in 0..n {
+        let (mut plan, secret) = full_plan(rng, false);
+        let k = rng.range(1, 9) as usize;
+        plan.pre_info = vec![];
+        plan.routing = if bi % 2 == 0 { vec![Step::AdapterDone, Step::Throttle(vec![WAns::Accept(k), WAns::Pending, WAns::Pending, WAns::Pending]), Step::Tick, Step::AdapterDone, Step::Throttle(vec![]), Step::Tick, Step::AdapterDone] }
+            else { vec![Step::Throttle(vec![WAns::Accept(k), WAns::Pending, WAns::Pending, WAns::Pending]), Step::Tick, Step::AdapterDone, Step::Throttle(vec![]), Step::AdapterDone, Step::Tick, Step::AdapterDone] };
+        let v = routed_verdicts(rng, &plan, true);
+        let mut sc = scenario(rng, &plan, secret.clone(), vec![], v);
+        sc.steps = render(&plan, secret.is_some());
+        let o = exec(&sc);
+        let mut r = sc.clone();
+        r.steps = sc.steps.iter().filter(|s| !matches!(s, Step::Throttle(_))).cloned().collect();
+        let ro = exec(&r);
+        let mut why = vec![];
+        if canon(&o) != canon(&ro) { why.push(format!("a Keep Alive written {k} bytes at a time across an adapter completion and never answered: the run ends {} but without back-pressure it ends {}", o.result, ro.result)); }
+        cases.push(Case { request: o.request1.clone(), observed: o.observed.clone(), oracle: if why.is_empty() { None } else { Some(why.join("; ")) }, class: "keepalive-write-cancelled".into() });
+    }
+    cases
+}
+
 // ------------------------------------------------------------------------------------------ C04
 fn over_long(n: u32) -> Vec<u8> { let mut v: Vec<u8> = (0..4).map(|i| ((n >> (7 * i)) & 0x7f) as u8 | 0x80).collect(); v.push(((n >> 28) & 0x0f) as u8); v }
 
